@@ -144,6 +144,9 @@ def call_method(ex, st, recv, name, pos, named, stars, sargs, node, ov):
             real = C_class(r.cls)
             if real is not None: k = resolve_method(real, name)
         if k is None: k = C.CONTRACTS.get(f'*.{name}')
+        if k is None:
+            cands = [c for key, c in C.CONTRACTS.items() if key.endswith('.' + name)]
+            if len(cands) == 1: k = cands[0]
         if k is None: raise Unsupported(f'no contract for method .{name}() on {r.cls or "object"} (line {node.lineno} in {ex.spec.qual})')
         return apply_contract(ex, st, k, r, pos, named, stars, sargs, node)
     if isinstance(recv, PType):
@@ -374,9 +377,19 @@ def isinstance_cond(ex, st, v, cls):
     if issubclass(_blk.EventCond, cls): parts.append(Val.is_EC(z))
     if issubclass(_fsm.Goto, cls): parts.append(Val.is_Goto(z))
     if issubclass(type(C.REAL_UNDEF()), cls): parts.append(Val.is_Undef(z))
-    parts.append(And(Val.is_Obj(z), inst_of(Val.ref(z), cls)))
-    parts.append(And(Val.is_Opq(z), opq_inst(Val.k(z), cls)))
-    return Or(*parts)
+    if not _is_container_abc(cls):
+        # encoding assumption: mappings / sequences / sets that reach edzed are the built-in ones (dict, tuple, list,
+        # str, frozenset); user-defined container classes are outside the model
+        parts.append(And(Val.is_Obj(z), inst_of(Val.ref(z), cls)))
+        parts.append(And(Val.is_Opq(z), opq_inst(Val.k(z), cls)))
+    if _abc_check(frozenset, cls) or _abc_check(set, cls): parts.append(Val.is_FS(z))
+    return Or(*parts) if parts else BoolVal(False)
+
+
+def _is_container_abc(cls):
+    import collections.abc as abc
+    return cls in (abc.Mapping, abc.MutableMapping, abc.Sequence, abc.MutableSequence, abc.Set, abc.MutableSet, abc.Collection,
+                   abc.Iterator, dict, tuple, list, str, set, frozenset)
 
 
 def _is_abc(cls):
@@ -763,3 +776,24 @@ def _removeprefix(ex, st, recv, pos, named, node):
     if recv.kind not in ('str', 'val'): return None
     s, p = ex.as_str(st, recv), ex.as_str(st, pos[0])
     return [(st, ZV('str', If(PrefixOf(p, s), z3.SubString(s, Length(p), Length(s) - Length(p)), s)))]
+
+
+# lists / tuples
+@method(PSeq, 'append')
+@_mutating
+def _seq_append(ex, st, recv, pos, named, node):
+    return [(st, PSeq(Store(recv.arr, recv.n, to_val(pos[0], st)), recv.n + 1, recv.elem, recv.is_list), P_NONE)]
+
+
+@method(PTuple, 'append')
+@_mutating
+def _list_append(ex, st, recv, pos, named, node):
+    return [(st, PTuple(recv.items + [pos[0]], True), P_NONE)]
+
+
+@method(PTuple, 'extend')
+@_mutating
+def _list_extend(ex, st, recv, pos, named, node):
+    v = pos[0]
+    if isinstance(v, PTuple): return [(st, PTuple(recv.items + v.items, True), P_NONE)]
+    raise Unsupported('list.extend with a symbolic-length sequence')
